@@ -598,7 +598,7 @@ func TestVerifC05Respawn(t *testing.T) {
 				}
 				return false
 			}
-			resets, inWindow := 0, 0
+			resets, inWindow, reconnects := 0, 0, 0
 			for k, K := 0, c.Range(5, 25); k < K && !c.Violated(); k++ {
 				if c.Chance(0.3) {
 					// interest changes around the reset
@@ -610,6 +610,15 @@ func TestVerifC05Respawn(t *testing.T) {
 						subs[tn] = s
 					}
 					vSettle(time.Duration(c.Range(0, 3)) * time.Millisecond)
+				}
+				if c.Chance(0.3) {
+					// the whole connection goes away and comes back: a writer that dies with its connection is not a
+					// respawn and leaves the respawn budget alone
+					n.Disconnect(a.ID(), b.ID())
+					vSettle(time.Duration(c.Range(1, 3000)) * time.Millisecond)
+					n.Connect(a.ID(), b.ID())
+					vSettle(2 * time.Second)
+					reconnects++
 				}
 				if !resetOut() {
 					vSettle(time.Second)
@@ -642,7 +651,8 @@ func TestVerifC05Respawn(t *testing.T) {
 			c.Sig(fmt.Sprintf("%T%T", a.ps.rt, b.ps.rt), len(subs), resets/5)
 			c.Nontrivial(resets >= 3)
 			c.Count("outbound_resets", resets)
-			c.State(len(subs), resets/5)
+			c.Count("reconnects", reconnects)
+			c.State(len(subs), resets/5, reconnects/3)
 			if c.Idx < 2 {
 				c.Sample(map[string]any{"routers": fmt.Sprintf("%T / %T", a.ps.rt, b.ps.rt), "subscribed_topics": len(subs), "resets": resets})
 			}
